@@ -136,6 +136,13 @@ def check(prop, tier):
         out = os.path.join(b.dir, "e1.out")
         for sd in (seeds if variant == "plain" else seeds[:1]):
             recs = run_e1(exe, prop, tier, out, K, use_seed=sd)
+            if precision and variant == "plain" and sd == seeds[0]:
+                # long-double-only pass with inputs that are not representable in double
+                recs2 = run_e1(exe, prop, tier, out, K, use_seed=sd, extra=["--ldfull", "--maxdev", "1"])
+                for r in recs2:
+                    if r["k"] in ("system", "worker"):
+                        r["system"] = r["system"] + "[ld62]"
+                recs = recs + recs2
             for r in recs:
                 r["build"] = variant
                 if r["k"] in ("system", "worker"):
@@ -153,6 +160,7 @@ def check(prop, tier):
     if precision:
         rep.assumptions.append("K=%g is calibrated (8 x the largest ratio observed on the unchanged tree over the thorough lattice), not a derived error bound; S is the condition-aware sum of |leaf| magnitudes of the reference operator" % K)
         rep.coverage["observed_max_ratio"] = max(v["maxratio"] for v in stats.values())
+        rep.assumptions.append("second pass 'ld62': every parameter and coordinate multiplied by (1+2^-48) resp. (1+2^-47) -- exactly representable in long double and float128 but not in double -- evaluated in the long double registry only")
     else:
         rep.assumptions.append("K=2^16 unit roundoffs of the scale S separates roundoff from algebraic error")
     return rep.finish()
